@@ -55,7 +55,7 @@ func mirror(peer io.ReadWriteCloser, ue, uc bool, key string) (io.ReadWriteClose
 // transparent sends a payload a -> b and another b -> a and compares; deadline applies to each direction.
 func transparent(a io.ReadWriter, b io.ReadWriter, setDeadline func(time.Time), payload []byte) bool {
 	oneWay := func(w io.Writer, r io.Reader, p []byte) bool {
-		setDeadline(time.Now().Add(3 * time.Second))
+		setDeadline(time.Now().Add(10 * time.Second))
 		go func() { _, _ = w.Write(p) }()
 		// the read runs on its own goroutine: a wrapper that reads from some other connection than the one the
 		// deadline was set on must make the observation fail, not hang the driver
@@ -68,7 +68,7 @@ func transparent(a io.ReadWriter, b io.ReadWriter, setDeadline func(time.Time), 
 		select {
 		case ok := <-res:
 			return ok
-		case <-time.After(4 * time.Second):
+		case <-time.After(12 * time.Second):
 			return false
 		}
 	}
